@@ -330,6 +330,13 @@ def splitWrapS (uri cs ls : Str) : Str :=
 
 def splitWrap (uri : Str) (count suffixLen : Nat) : Str := splitWrapS uri (natStr count) (natStr suffixLen)
 
+/-- The value of the writer's `fields` argument: `-F` itself, preceded - when `--multi-timestamp` expands the records
+    after the projection - by the two fields the expansion adds (so that the writer's own selection keeps them). -/
+def writerFields (multiTs : Bool) (fields : Option String) : Option String :=
+  match fields with
+  | some f => if Gen.rdumpWriterFieldsKeepTs && multiTs && !f.isEmpty then some ("ts,ts_description," ++ f) else some f
+  | none => none
+
 def writerUri (p : Present) (fields exclude : Option String) : Str :=
   let uri := baseUri p fields exclude
   match p.split with
